@@ -18,6 +18,9 @@ struct Case {
     ctor: u8,
     /// results are errors (lower is better) instead of scores
     errors: bool,
+    /// every individual carries two per-case results [10 - v, 2v - 10] (total v): the order of the totals is
+    /// the reverse of the lexicographic order of the per-case vectors
+    two_case: bool,
 }
 
 fn mk_tournament(k: usize, ctor: u8) -> Tournament {
@@ -35,8 +38,9 @@ fn mk_tournament(k: usize, ctor: u8) -> Tournament {
 /// explore one (population, k); returns (leaves, violation)
 fn tournament_case(c: &Case) -> (u64, u64, Option<(String, String)>, usize) {
     let n = c.values.len();
-    let pop = mk_pop(&c.values);
-    let pop_e = mk_pop_matrix_err(&c.values.iter().map(|v| vec![*v]).collect::<Vec<_>>());
+    let rows: Vec<Vec<i64>> = c.values.iter().map(|v| if c.two_case { vec![10 - v, 2 * v - 10] } else { vec![*v] }).collect();
+    let pop = mk_pop_matrix(&rows);
+    let pop_e = mk_pop_matrix_err(&rows);
     let errors = c.errors;
     // goodness: a score as it is, an error negated (lower is better)
     let g = move |v: i64| if errors { -v } else { v };
@@ -46,7 +50,7 @@ fn tournament_case(c: &Case) -> (u64, u64, Option<(String, String)>, usize) {
     let mut pos_law: Law<usize> = Law::new();
     let mut bad: Option<String> = None;
     let mut max_draws = 0usize;
-    let label0 = format!("{}={:?} k={}", if c.errors { "errors" } else { "values" }, c.values, c.k);
+    let label0 = format!("{}={:?}{} k={}", if c.errors { "errors" } else { "values" }, c.values, if c.two_case { " (totals of two cases)" } else { "" }, c.k);
     // per-leaf consequence stated by the property: the winner is at least as good as k-1 other members.
     // Checked first on every stream with at most two non-default words (always terminates: beyond a
     // horizon the words come from the tail stream), so that a sampler that loops or repeats entrants is
@@ -182,6 +186,18 @@ pub fn run(run: &mut Run) {
                     let o = observe_select(&Worst, &pop, &pop, &mut env, Alphabet::Grid(2));
                     (o, env.draws())
                 }),
+                ("best(two cases)", mx, {
+                    let p2 = mk_pop_matrix(&values.iter().map(|v| vec![10 - v, 2 * v - 10]).collect::<Vec<_>>());
+                    let mut env = mcx::Env::new(vec![]);
+                    let o = observe_select(&Best, &p2, &p2, &mut env, Alphabet::Grid(2));
+                    (o, env.draws())
+                }),
+                ("worst(two cases)", mn, {
+                    let p2 = mk_pop_matrix(&values.iter().map(|v| vec![10 - v, 2 * v - 10]).collect::<Vec<_>>());
+                    let mut env = mcx::Env::new(vec![]);
+                    let o = observe_select(&Worst, &p2, &p2, &mut env, Alphabet::Grid(2));
+                    (o, env.draws())
+                }),
                 ("best(errors)", mn, {
                     let pe = mk_pop_matrix_err(&values.iter().map(|v| vec![*v]).collect::<Vec<_>>());
                     let mut env = mcx::Env::new(vec![]);
@@ -236,7 +252,7 @@ pub fn run(run: &mut Run) {
             let full = n <= 4 || (n == 5 && k <= 3) || (!quick && n == 6 && k <= 2);
             if full {
                 for values in all_value_vectors(n, &VALUES) {
-                    cases.push(Case { values, k, ctor: 0, errors: false });
+                    cases.push(Case { values, k, ctor: 0, errors: false, two_case: false });
                 }
             }
             // every ordering of n distinct values (positions matter to a sampler, values to the law)
@@ -246,13 +262,13 @@ pub fn run(run: &mut Run) {
                 permutations(&mut perm, 0, &mut all);
                 for values in all {
                     if !full || n >= 4 {
-                        cases.push(Case { values, k, ctor: 0, errors: false });
+                        cases.push(Case { values, k, ctor: 0, errors: false, two_case: false });
                     }
                 }
             }
             if !full {
                 for values in family(n) {
-                    cases.push(Case { values, k, ctor: 0, errors: false });
+                    cases.push(Case { values, k, ctor: 0, errors: false, two_case: false });
                 }
             }
         }
@@ -262,10 +278,12 @@ pub fn run(run: &mut Run) {
     // the other constructors (const-generic size, binary) on the populations of up to 4
     let mut more = vec![];
     for c in cases.iter().filter(|c| c.values.len() <= 4) {
-        more.push(Case { values: c.values.clone(), k: c.k, ctor: 1, errors: false });
-        more.push(Case { values: c.values.clone(), k: c.k, ctor: 0, errors: true });
+        more.push(Case { values: c.values.clone(), k: c.k, ctor: 1, errors: false, two_case: false });
+        more.push(Case { values: c.values.clone(), k: c.k, ctor: 0, errors: true, two_case: false });
+        more.push(Case { values: c.values.clone(), k: c.k, ctor: 0, errors: false, two_case: true });
+        more.push(Case { values: c.values.clone(), k: c.k, ctor: 0, errors: true, two_case: true });
         if c.k == 2 {
-            more.push(Case { values: c.values.clone(), k: 2, ctor: 2, errors: false });
+            more.push(Case { values: c.values.clone(), k: 2, ctor: 2, errors: false, two_case: false });
         }
     }
     cases.extend(more);
@@ -281,7 +299,7 @@ pub fn run(run: &mut Run) {
             if k.starts_with("machinery/") {
                 run.machinery(w);
             } else {
-                run.violation(k, w, json!({"check":"C07","scenario":"tournament","values":cases[i].values,"k":cases[i].k,"ctor":cases[i].ctor,"errors":cases[i].errors}));
+                run.violation(k, w, json!({"check":"C07","scenario":"tournament","values":cases[i].values,"k":cases[i].k,"ctor":cases[i].ctor,"errors":cases[i].errors,"two_case":cases[i].two_case}));
             }
         }
     }
@@ -290,7 +308,7 @@ pub fn run(run: &mut Run) {
     run.transitions += bw;
     run.traces_validated = run.evaluations;
     run.distinct_nontrivial = nontrivial;
-    run.rule = "every population of size 1..n over 3 values (ties included) x every tournament size (Tournament::new; for n <= 4 also of_size::<K>(), binary(), and individuals whose results are errors, lower is better); Best/Worst likewise on scores and on errors; all grid word sequences explored on the real Tournament::select; the accumulated winner-value law is compared, as exact rationals, with [C(#<=v,k)-C(#<v,k)]/C(n,k); non-trivial = (population, k) scenarios whose law has more than one outcome".into();
+    run.rule = "every population of size 1..n over 3 values (ties included) x every tournament size (Tournament::new; for n <= 4 also of_size::<K>(), binary(), individuals whose results are errors, lower is better, and individuals with two per-case results whose lexicographic order is the reverse of the order of their totals); Best/Worst likewise on scores and on errors; all grid word sequences explored on the real Tournament::select; the accumulated winner-value law is compared, as exact rationals, with [C(#<=v,k)-C(#<v,k)]/C(n,k); non-trivial = (population, k) scenarios whose law has more than one outcome".into();
     run.bound("max_population", json!(max_n));
     run.bound("tournament_sizes", json!("every k with lcm(1..n)^k executions within the per-case budget (3e5 quick, 2e7 thorough); full population product for n<=4, n=5 k<=3 (thorough n=6 k<=2); all orderings of distinct values for n<=5; a 9-member population family otherwise"));
     run.bound("best_worst_population_sizes", json!("1..=6"));
@@ -308,7 +326,7 @@ pub fn replay(v: &Value) -> bool {
     match v["scenario"].as_str() {
         Some("tournament") => {
             let k = v["k"].as_u64().unwrap_or(1) as usize;
-            let (leaves, _, viol, _) = tournament_case(&Case { values: values.clone(), k, ctor: v["ctor"].as_u64().unwrap_or(0) as u8, errors: v["errors"].as_bool().unwrap_or(false) });
+            let (leaves, _, viol, _) = tournament_case(&Case { values: values.clone(), k, ctor: v["ctor"].as_u64().unwrap_or(0) as u8, errors: v["errors"].as_bool().unwrap_or(false), two_case: v["two_case"].as_bool().unwrap_or(false) });
             println!("tournament of size {k} on values {values:?}: {leaves} executions explored");
             match viol {
                 Some((key, w)) => {
